@@ -62,7 +62,7 @@ func runSeq(in seqIn) (interface{}, error) {
 			out.Answ = append(out.Answ, seqAns{Err: "request"})
 			continue
 		}
-		req := &http.Request{Method: "GET", URL: u, Host: rq.Host, Header: http.Header{}, RequestURI: rq.Target}
+		req := &http.Request{Method: "GET", URL: u, Host: rq.Host, Header: http.Header{}, RequestURI: rq.Target, RemoteAddr: "127.0.0.1:1"}
 		if rq.XFP != "" {
 			req.Header.Set("X-Forwarded-Proto", rq.XFP)
 		}
